@@ -95,11 +95,21 @@ theorem lists_have_unique_nonces (s : State) (h : AllW s) (a : Nat) :
 shape — pending gap-free from the state nonce, payable and within the block gas limit, every queued transaction above
 the pending run — starting from ANY state that satisfies the structural invariant (which every reachable state does,
 `structure_reachable`) and whose queues were forwarded to the state nonces (`Q1`, the effect of the promotion run that
-precedes it; assumed here, sampled by correspondence). Whatever the reorg, the reinjection and the promotion left in
+precedes it: discharged in `reset_reorg_run_establishes_shape`). Whatever the reorg, the reinjection and the promotion left in
 the lists, no gap and no unpayable transaction survives in pending. -/
 theorem demote_establishes_shape (s : State) (h : AllW s) (hQ : ∀ b, Q1 (s.acct b)) (ord : List Nat) (b : Nat) :
     Shape ((s.demoteUnexecutables (normOrd s.n ord)).acct b) (s.demoteUnexecutables (normOrd s.n ord)).maxGas :=
   demote_all_shape h hQ ord b
+
+/-- The reorg run that follows every reset — promotion over every account with a queue, then demotion over every
+account (`runReorg` uses exactly such lists) — leaves EVERY account in shape, from the structural invariant ALONE
+(no hypothesis about what the reset, the reinjection or earlier operations left in the lists): pending gap-free from
+the state nonce, payable, within the block gas limit, every queued transaction above it. -/
+theorem reset_reorg_run_establishes_shape (s : State) (h : AllW s) (L1 L2 : List Nat)
+    (h1 : ∀ b, (s.acct b).queue.txs ≠ [] → b ∈ L1) (h2 : ∀ b, b < s.n → b ∈ L2) (b : Nat) :
+    Shape (((s.promoteExecutables L1).demoteUnexecutables L2).acct b)
+      ((s.promoteExecutables L1).demoteUnexecutables L2).maxGas :=
+  promote_then_demote_shape h L1 L2 h1 h2 b
 
 /-- non-vacuity: the defect witness (state nonce lowered to 0, pending = [0, 2]) satisfies the hypotheses, and the
 repaired run leaves pending = [0], queue = [2]. -/
